@@ -21,7 +21,6 @@
 """Module for Electrum v2 mnemonic entropy generation."""
 
 # Imports
-import math
 from enum import IntEnum, unique
 from typing import List, Union
 
@@ -113,5 +112,8 @@ class ElectrumV2EntropyGenerator(EntropyGenerator):
         """
         if isinstance(entropy, bytes):
             entropy = BytesUtils.ToInteger(entropy)
-        entropy_bit_len = 0 if entropy <= 0 else math.floor(math.log(entropy, 2))
-        return ElectrumV2EntropyGenerator.IsValidEntropyBitLen(entropy_bit_len)
+        # The entropy shall be encoded with exactly 12 or 24 words, so its bit length shall be greater than the
+        # maximum one minus the bit length of a single word
+        entropy_bit_len = entropy.bit_length() if entropy > 0 else 0
+        return any(bit_len - ElectrumV2MnemonicConst.WORD_BIT_LEN < entropy_bit_len <= bit_len
+                   for bit_len in ElectrumV2EntropyGeneratorConst.ENTROPY_BIT_LEN)
